@@ -57,7 +57,7 @@ impl CodeGenerator {
 
     /// Returns a random boolean vector of given size and sparcity
     pub fn random_bool_vector(size: i32, sparsity: f32) -> Option<BoolVector> {
-        if size < 0 || sparsity < 0.0 || sparsity > 1.0 {
+        if size < 0 || sparsity.is_nan() || sparsity < 0.0 || sparsity > 1.0 {
             None
         } else {
             let mut rng = rand::thread_rng();
@@ -69,7 +69,7 @@ impl CodeGenerator {
             let num_active_bits = (sparsity * size as f32) as i32;
             for _i in 1..num_active_bits + 1 {
                 loop {
-                    let rand_idx = rng.gen_range(0..size - 1) as usize;
+                    let rand_idx = rng.gen_range(0..size) as usize;
                     // Flip bit if it is still default, select other index otherwise
                     if bool_vector[rand_idx] == default {
                         bool_vector[rand_idx] = !default;
